@@ -391,3 +391,119 @@ def arc_segment(P, rep, rule="SEG.arc"):
         rep.ok(rule, "arc segment: centre, end point, attribution range, signed distance, along distance and reference depth equal the circular construction on %d paths "
                      "(centre cases x sign of the dip change x attributed / not, and just outside the rounding guards)" % n_paths, F.nloc(step), F.qn)
     rep.floor(rule, n_paths, 14, "paths of the arc step")
+
+
+def frame_axes(P, rep, rule="SEG.frame"):
+    rep.rule(rule, "the local 2D frame of the slab kernel: where the horizontal axis is built from the up direction v and the trench direction u "
+                   "(check point exactly below the trench line) it is the rotation of v by a quarter turn about u, x = u (u.v) +- u x v "
+                   "(Rodrigues' formula with cos = 0, sin = +-1; polynomial identity in the six components); the check point and the start of "
+                   "the first segment are projected on the same two axes from the same origin")
+    F = P.func(KERNEL)
+    miss = astq.missing_anchors(P, F, ["x_axis", "y_axis", "normal_to_plane", "check_point_2d", "begin_segment"])
+    if miss:
+        rep.unknown(rule, "distance_point_from_curved_planes: the variables %s this rule is written over no longer exist (renamed?)" % miss)
+        return
+    key = {}
+    for n in F.walk(F.body):
+        if n.get("k") == "VarDecl" and n.get("n") in ("x_axis", "y_axis", "normal_to_plane", "check_point_2d", "begin_segment"):
+            key.setdefault(n["n"], n["r"])
+    u = sp.symbols("u0 u1 u2", real=True)
+    v = sp.symbols("v0 v1 v2", real=True)
+    # (1) x_axis = Point<3>(p0, p1, p2) built from components of y_axis and normal_to_plane
+    cands = []
+    for y in F.walk(F.body):
+        if y.get("k") in ("CXXOperatorCallExpr", "BinaryOperator") and y.get("op") == "=":
+            kids = [x for x in y["c"] if x is not None]
+            if astq.is_ref_to(kids[-2], key["x_axis"]):
+                rhs = sc(kids[-1])
+                while rhs is not None and rhs.get("k") in ("MaterializeTemporaryExpr", "CXXBindTemporaryExpr", "ExprWithCleanups", "CXXFunctionalCastExpr") and rhs.get("c"):
+                    rhs = sc(rhs["c"][0])
+                if rhs is not None and rhs.get("k") in ("CXXTemporaryObjectExpr", "CXXConstructExpr") and "Point<3>" in (rhs.get("t") or ""):
+                    args = [a for a in rhs["c"] if a is not None and a.get("k") != "CXXDefaultArgExpr" and "CoordinateSystem" not in (sc(a).get("t") or "")]
+                    if len(args) == 3 and any(z.get("k") == "BinaryOperator" and z.get("op") == "*" for a in args for z in F.walk(a)):
+                        cands.append((y, rhs))
+    if len(cands) != 1:
+        rep.unknown(rule, "distance_point_from_curved_planes: %d component-wise constructions of x_axis (1 expected)" % len(cands))
+        return
+    y, rhs = cands[0]
+    V = VecEval(P, F, env={key["y_axis"]: tuple(v), key["normal_to_plane"]: tuple(u)})
+    # the shorthand locals in front of it, in the same block
+    blk = astq.enclosing(F, y, ("CompoundStmt",))
+    try:
+        for st in astq.stmts_of(blk):
+            if st is y or any(z is y for z in F.walk(st)):
+                break
+            if st.get("k") == "DeclStmt" and all(d_.get("k") == "VarDecl" and norm.is_arith(d_.get("t", "")) for d_ in st["c"]):
+                try:
+                    V.stmt(st)
+                except AnalysisBroken:
+                    pass
+        got = V.ev(rhs)
+    except AnalysisBroken as e:
+        rep.unknown(rule, "x_axis construction: %s" % e)
+        return
+    dot = sum(a * b for a, b in zip(u, v))
+    cross = (u[1] * v[2] - u[2] * v[1], u[2] * v[0] - u[0] * v[2], u[0] * v[1] - u[1] * v[0])
+    wants = [tuple(sp.expand(u[i] * dot + sgn * cross[i]) for i in range(3)) for sgn in (1, -1)]
+    gote = tuple(sp.expand(g) for g in got)
+    if any(all(sp.expand(g - w) == 0 for g, w in zip(gote, want)) for want in wants):
+        rep.ok(rule, "x_axis = u (u.v) + u x v: the up direction rotated by a quarter turn about the trench direction", F.nloc(y), F.qn)
+    else:
+        diffs = [sp.expand(g - w) for g, w in zip(gote, wants[0])]
+        comp = [i for i, d_ in enumerate(diffs) if d_ != 0]
+        rep.violation(rule, "x_axis is not the quarter-turn rotation of the up direction about the trench direction: component %s differs from u (u.v) + u x v by %s" % (
+            comp, [str(diffs[i]) for i in comp][:2]), F.nloc(y), F.qn, norm.render(P, y)[:160],
+            "for a point exactly below a spherical trench line the horizontal axis is not perpendicular to the vertical: the distance from the slab surface jumps",
+            key="%s|rodrigues" % rule, witness="spherical slab with its trench along the meridian 0 at latitude 45: query exactly below a trench coordinate and 1e-7 degrees next to it")
+    # (2) both projections use the same axes and the same origin
+    decls = {}
+    for n in F.walk(F.body):
+        if n.get("k") == "VarDecl" and n.get("r") in (key["check_point_2d"], key["begin_segment"]) and n.get("c"):
+            decls[n["n"]] = n
+    if len(decls) != 2:
+        rep.unknown(rule, "projections of the check point / segment start not found")
+        return
+    ax = sp.symbols("x0 x1 x2", real=True)
+    ay = sp.symbols("y0 y1 y2", real=True)
+    forms = {}
+    for nm, d_ in decls.items():
+        syms = {}
+
+        def pt(name):
+            return tuple(sp.Symbol("%s_%d" % (name, i), real=True) for i in range(3))
+        env = {key["x_axis"]: ax, key["y_axis"]: ay}
+        # every other Point<3> the initialiser mentions becomes a generic point named after its declaration
+        for z in F.walk(d_["c"][0]):
+            if z.get("k") == "DeclRefExpr" and z["r"] not in env and "Point<3>" in (P.d(z["r"]).get("t") or ""):
+                env[z["r"]] = pt(z.get("n"))
+        try:
+            forms[nm] = VecEval(P, F, env=env).ev(d_["c"][0])
+        except AnalysisBroken as e:
+            rep.unknown(rule, "projection %s: %s" % (nm, e))
+            return
+    okp = True
+    origin = {}
+    for nm, val in forms.items():
+        if not (isinstance(val, tuple) and len(val) == 2):
+            okp = False
+            continue
+        # component 0 is x_axis . (A - O), component 1 is y_axis . (A - O) with the same A - O
+        d0 = [sp.expand(val[0]).coeff(a) for a in ax]
+        d1 = [sp.expand(val[1]).coeff(a) for a in ay]
+        if sp.expand(val[0] - sum(a * b for a, b in zip(ax, d0))) != 0 or sp.expand(val[1] - sum(a * b for a, b in zip(ay, d1))) != 0 or \
+                any(sp.expand(a - b) != 0 for a, b in zip(d0, d1)):
+            okp = False
+        origin[nm] = d0
+    if okp and len(origin) == 2:
+        a_, b_ = origin["check_point_2d"], origin["begin_segment"]
+        # (A - O) and (B - O): the difference must not contain the origin
+        diff = [sp.expand(x - y_) for x, y_ in zip(a_, b_)]
+        sub_syms = set().union(*[d_.free_symbols for d_ in diff])
+        common = (set().union(*[x.free_symbols for x in a_])) & (set().union(*[x.free_symbols for x in b_]))
+        if not common or (common & sub_syms):
+            okp = False
+    if okp:
+        rep.ok(rule, "check_point_2d and begin_segment are (x_axis . (A - O), y_axis . (A - O)) with one origin O", F.nloc(decls["check_point_2d"]), F.qn)
+    else:
+        rep.violation(rule, "the check point and the start of the first segment are not projected on the same axes from the same origin", F.nloc(decls["check_point_2d"]), F.qn,
+                      str(forms)[:160], "distances in the local frame are offset", key="%s|projection" % rule, witness="any slab")
